@@ -237,6 +237,9 @@ def _case_value(prog, ent, case_name, case):
             return None
         return ("tup", [r[1][i] if i < len(r[1]) else None for i in ent["ret"]])
     calls = [c for c in ev.calls if c["name"] == ent["watch"]]
+    if ent.get("unconditional") and any(c.get("cond") for c in calls):
+        # the watched call sits under a condition the evaluator cannot decide: in this case it must happen on every path
+        return None
     if ent.get("collect") == "keyed":
         out = {}
         for c in calls:
